@@ -30,6 +30,8 @@ def patch(kind, tag, once=False, id=None):
         payload = {'k': 'error', 'err': {'code': str(2001), 'message': f'err-{tag}', 'data': {'v': enc(tag)}, 'cls': 'UserError2001'}}
     elif kind == 'callback':
         payload = {'k': 'callback', 'tag': str(tag)}
+    elif kind == 'callback_raises':
+        payload = {'k': 'callback_raises'}
     else:
         payload = {'k': 'nothing'}
     return {'once': once, 'payload': payload, 'id': None if id is None else enc(id)}
@@ -60,7 +62,7 @@ def gen_history(rng, length, counters):
         key = (ep, m)
         if k < 0.3:
             counters['tag'] += 1
-            kind = rng.choice(['result', 'result', 'error', 'callback'])
+            kind = rng.choice(['result', 'result', 'error', 'callback', 'callback', 'callback_raises'])
             once = rng.random() < 0.35
             ops.append({'op': 'add', 'ep': ep, 'm': m, 'patch': patch(kind, counters['tag'], once, id=rng.choice([None, None, 'cfg', 7]))})
             onces.setdefault(key, []).append(once)
@@ -68,7 +70,7 @@ def gen_history(rng, length, counters):
             counters['tag'] += 1
             idx = rng.randrange(len(onces[key]))
             once = rng.random() < 0.35
-            ops.append({'op': 'replace', 'ep': ep, 'm': m, 'idx': str(idx), 'patch': patch(rng.choice(['result', 'error', 'callback']), counters['tag'], once)})
+            ops.append({'op': 'replace', 'ep': ep, 'm': m, 'idx': str(idx), 'patch': patch(rng.choice(['result', 'error', 'callback', 'callback_raises']), counters['tag'], once)})
             onces[key][idx] = once
         elif k < 0.44 and onces.get(key):
             ops.append({'op': 'remove', 'ep': ep, 'm': m})
@@ -116,7 +118,7 @@ def generate(tier, rng):
     # exhaustive short histories over one key: patches x once x calls
     for n_patches in (1, 2, 3):
         for flags in itertools.product([False, True], repeat=n_patches):
-            for kinds in itertools.product(['result', 'error', 'callback'], repeat=n_patches) if n_patches < 3 else [('result', 'error', 'callback')]:
+            for kinds in itertools.product(['result', 'error', 'callback', 'callback_raises'], repeat=n_patches) if n_patches < 3 else [('result', 'error', 'callback'), ('callback', 'callback_raises', 'result')]:
                 for n_calls in (1, 2, 4, 7):
                     ops = [{'op': 'add', 'ep': EPS[0], 'm': 'm1', 'patch': patch(k, i, f)} for i, (k, f) in enumerate(zip(kinds, flags))]
                     ops += [request(EPS[0], call('m1', i, [i])) for i in range(n_calls)]
@@ -169,6 +171,10 @@ def generate(tier, rng):
 # implementation
 # ------------------------------------------------------------------------------------------------
 
+class CallbackError(Exception):
+    pass
+
+
 def _kwargs(p):
     kw = {'once': p['once']}
     pl = p['payload']
@@ -183,6 +189,10 @@ def _kwargs(p):
         def cb(*args, **kwargs):
             return ['callback', tag, list(args) if args or not kwargs else kwargs]
         kw['callback'] = cb
+    elif pl['k'] == 'callback_raises':
+        def cb_raises(*args, **kwargs):
+            raise CallbackError('the configured callback raises')
+        kw['callback'] = cb_raises
     if p['id'] is not None:
         kw['id'] = dec(p['id'])
     return kw
@@ -243,7 +253,7 @@ def run_half(c, half):
             except ConnectionRefusedError:
                 outs.append({'k': 'refused'})
             except Exception as e:  # noqa
-                if half == 'requests' and c['passthrough'] and op == 'request' and not isinstance(e, (AssertionError, pjrpc.exc.BaseError, IndexError, KeyError)):
+                if half == 'requests' and c['passthrough'] and op == 'request' and not isinstance(e, (AssertionError, pjrpc.exc.BaseError, IndexError, KeyError, CallbackError)):
                     outs.append({'k': 'passthrough'})      # the real transport was reached (and has no network)
                 else:
                     outs.append({'k': 'raised', 'exc': core.exc_name(e)})
@@ -367,6 +377,9 @@ def reference(c):
                     if e2['data'] is not None:
                         err['data'] = dec(e2['data']['v'])
                     replies.append({'jsonrpc': '2.0', 'id': use_id, 'error': err})
+                elif pl['k'] == 'callback_raises':
+                    bad = 'CallbackError'
+                    break
                 else:
                     bad = 'AssertionError'
                     break
